@@ -1,7 +1,3 @@
 package main
 
 func cmdSelftest(args []string) int { return 0 }
-func cmdReplay(args []string) int   { return 0 }
-
-// tryReplay attempts to reproduce a refuted obligation on the real code.
-func tryReplay(cr *checkRun, a *AggOb, path string) (bool, string) { return false, "" }
